@@ -59,6 +59,10 @@ def num_json(v):
     return {"ty": "other:" + type(v).__name__, "neg": False, "num": [0], "den": [1]}
 
 
+class TooBig(Exception):
+    """the value is nested or long beyond what the projection carries: the case is not evaluated"""
+
+
 def value_json(v, depth=0, force=True, limit=200):
     """general projection of a Vyxal value (field-tagged records)"""
     import sympy
@@ -79,21 +83,23 @@ def value_json(v, depth=0, force=True, limit=200):
     if isinstance(v, str):
         return {"s": [ord(c) for c in v]}
     if isinstance(v, list):
-        if depth > 12:
-            return {"x": "deep"}
-        return {"l": [value_json(x, depth + 1, force, limit) for x in v[:limit]]}
+        if depth > 12 or len(v) > limit:
+            raise TooBig()
+        return {"l": [value_json(x, depth + 1, force, limit) for x in v]}
     if isinstance(v, LazyList):
         if not force:
             return {"z": 1}
         if depth > 12:
-            return {"x": "deep"}
+            raise TooBig()
         out = []
         it = iter(v)
-        for _ in range(limit):
+        for _ in range(limit + 1):
             try:
                 out.append(next(it))
             except StopIteration:
                 break
+        if len(out) > limit:
+            raise TooBig()
         return {"l": [value_json(x, depth + 1, force, limit) for x in out]}
     if isinstance(v, types.FunctionType):
         return {"f": getattr(v, "arity", -1) if isinstance(getattr(v, "arity", -1), int) else -1}
